@@ -261,8 +261,11 @@ CmdOK(c, o) ==
        /\ (c.keepalive /\ c.maxw = 1 /\ c.timeout = "default" /\ Reaches(c) /\ c.server # "unix" /\ Proto(c) = "HTTP/1.1" => Cardinality({o.reqs[j].conn : j \in 1..Len(o.reqs)}) = Cardinality({o.reqs[j].dialhost : j \in 1..Len(o.reqs)}))   \* one per host attacked
        \* -connect-to with a destination given by name, looked up through -resolvers: the mapped connections still go through
        \* the -dns-ttl policy - kept for ever by default (one lookup however many connections), none kept with -1
-       /\ (c.dnsdest = "forever" /\ Reaches(c) => o.dnsq = 1)
-       /\ (c.dnsdest = "off" /\ Reaches(c) => o.dnsq >= Len(o.reqs))
+       /\ (c.dnsdest = "forever" /\ Reaches(c) => o.dnsq >= 1 /\ o.dnsq <= c.maxw)    \* (workers that start together may each miss the still empty cache)
+       \* (the resolver answers lookups of one name that are in progress at the same time with a single query: one per request is
+       \* certain for a single worker only; with more, a request beyond the first max-workers needs a lookup of its own)
+       /\ (c.dnsdest = "off" /\ Reaches(c) /\ c.maxw = 1 => o.dnsq >= Len(o.reqs))
+       /\ (c.dnsdest = "off" /\ Reaches(c) /\ Len(o.reqs) > c.maxw => o.dnsq >= 2)
        \* -dns-ttl=100ms over two seconds, the name gone after 0.3 s: hits succeed while it resolves; once the answer is older
        \* than the ttl it is asked for again, so from 0.7 s after the name went no hit succeeds any more
        /\ (c.dnsdest = "expire" /\ Reaches(c) => o.early_ok >= 1 /\ o.late_n >= 1 /\ o.late_ok = 0)
